@@ -415,4 +415,130 @@ def parse_ok(out):
     return cmds, objs
 
 
-SUITES = [Main()]
+# ================================================================== suite wire (exercised, not modelled)
+
+class Wire(Suite):
+    """push over real transports: go-git client -> go-git server (file transport) and -> git receive-pack, against
+    what `git push` does to an identical remote.  After a push that reports success the remote must pass
+    git fsck --connectivity-only and carry exactly the references git's push leaves."""
+    name = "wire"
+    go_cmd = "c36"
+    quick_n = 3
+    thorough_n = 60
+
+    def gen(self, rng, n, tier):
+        return [{"op": "noop", "bucket": pick_weighted(rng, [(3, "ff"), (2, "diverged"), (1, "delete"), (1, "tags"), (1, "shallow")]),
+                 "seed": rng.randrange(1 << 30), "all_pairings": tier != "quick"} for _ in range(n)]
+
+    def oracle(self, ctx, cases, impl, model):
+        import random
+        import os
+        import shutil
+        from vf.core import HARNESS
+        fails = {}
+        self.stats = {"pushes_run": 0, "pushes_compared": 0, "client_refusals": 0}
+        bin_ = os.path.join(HARNESS, "bin", "c36")
+        for c in cases:
+            if c.get("op") != "noop":
+                continue
+            root = os.path.join(ctx.tmp, "pwire-%s" % c["id"])
+            os.makedirs(root)
+            try:
+                why = self._run(c, random.Random(c["seed"]), bin_, root)
+            finally:
+                shutil.rmtree(root, ignore_errors=True)
+            if why:
+                fails[c["id"]] = why
+        return fails
+
+    def _run(self, c, rng, bin_, root):
+        import shutil
+        import subprocess
+        from props.C36 import mkrepo, repo_state, git, ENV
+        w, commits, tags, _ = gen_world(rng, rng.choice(["random", "crisscross", "chain"]))
+        tip = commits[-1]
+        anc = sorted(ancestors(w, [tip]) - {tip})
+        local_refs = [("refs/heads/main", tip)]
+        if len(commits) > 2:
+            local_refs.append(("refs/heads/dev", rng.choice(commits)))
+        for i, t in enumerate(tags[:1]):
+            local_refs.append(("refs/tags/v%d" % i, t))
+        b = c["bucket"]
+        if b == "ff" and anc:
+            remote_refs = [("refs/heads/main", rng.choice(anc))]
+        elif b == "diverged":
+            remote_refs = [("refs/heads/main", rng.choice(commits)), ("refs/heads/stale", rng.choice(commits))]
+        elif b == "delete":
+            remote_refs = [("refs/heads/main", tip), ("refs/heads/old", rng.choice(commits))]
+        else:
+            remote_refs = [("refs/heads/main", rng.choice(anc))] if anc and rng.random() < 0.6 else []
+        specs = {"ff": ["refs/heads/*:refs/heads/*"], "diverged": [rng.choice(["refs/heads/main:refs/heads/main", "+refs/heads/main:refs/heads/main", "refs/heads/*:refs/heads/*"])],
+                 "delete": [":refs/heads/old"], "tags": ["refs/heads/main:refs/heads/main", "refs/tags/*:refs/tags/*"],
+                 "shallow": ["refs/heads/main:refs/heads/main"]}[b]
+        local = root + "/local"
+        shallow = []
+        ids = None
+        if b == "shallow":
+            cs = [x for x in ancestors(w, [tip]) if w.get(x)["abs"][2]]
+            if not cs:
+                return None
+            shallow = [rng.choice(sorted(cs))]
+            ids = reach(w, [t for _, t in local_refs], set(shallow))
+            local_refs = [r for r in local_refs if r[1] in ids]
+        mkrepo(local, w, local_refs, ids=ids, bare=False)
+        if shallow:
+            with open(local + "/.git/shallow", "w") as f:
+                f.write("".join(w.get(x)["hash"] + "\n" for x in shallow))
+        if repo_state(local)["fsck"] != 0:
+            return None
+        remote0 = root + "/remote0"
+        mkrepo(remote0, w, remote_refs, ids=reach(w, [t for _, t in remote_refs]))
+        ref_remote = root + "/remote-ref"
+        shutil.copytree(remote0, ref_remote)
+        p = git(local, "push", "-q", "file://" + ref_remote, *specs, ok=False)
+        git_ok = p.returncode == 0
+        want = repo_state(ref_remote)
+        problems = []
+        servers = ["gogit", "git"] if c.get("all_pairings") else [rng.choice(["gogit", "git"])]
+        for server in servers:
+            rdir = root + "/remote-" + server
+            shutil.copytree(remote0, rdir)
+            ldir = root + "/local-" + server
+            shutil.copytree(local, ldir)
+            case = {"id": 0, "op": "wire", "mode": "push", "server": server, "client_dir": ldir, "server_dir": rdir, "specs": specs}
+            pr = subprocess.run([bin_], input=(json.dumps(case) + "\n").encode(), stdout=subprocess.PIPE, stderr=subprocess.PIPE, env=ENV, timeout=180)
+            self.stats["pushes_run"] += 1
+            try:
+                rep = json.loads(pr.stdout.decode().splitlines()[0])
+            except Exception:
+                problems.append("go-git -> %s: no reply (%s)" % (server, pr.stderr.decode()[-200:]))
+                continue
+            if rep.get("panic"):
+                problems.append("go-git -> %s: panic %s" % (server, rep["panic"][:200]))
+                continue
+            if not rep["out"].startswith("( ok"):
+                self.stats["client_refusals"] += 1
+                continue
+            got = repo_state(rdir)
+            self.stats["pushes_compared"] += 1
+            tag = "go-git client -> %s server (%s, %s)" % (server, b, " ".join(specs))
+            if got["fsck"] != 0:
+                problems.append("%s: remote not connected after a successful push: %s" % (tag, got["fsck_msg"][-160:].replace("\n", " | ")))
+            elif not git_ok:
+                problems.append("%s: push succeeded where git refuses (%s)" % (tag, p.stderr.decode()[-120:].replace("\n", " | ")))
+            elif got["refs"] != want["refs"]:
+                problems.append("%s: remote references differ from git's push: %s vs %s" % (tag, got["refs"][:4], want["refs"][:4]))
+        return "; ".join(problems[:3]) if problems else None
+
+    def finding_class(self, c, reason, reply):
+        if c["bucket"] == "shallow" and "gogit server" in reason and ("not connected" in reason or "where git refuses" in reason):
+            return "shallow-as-have"
+        if c["bucket"] == "shallow" and "where git refuses" in reason:
+            return "shallow-as-have"
+        return None
+
+    def extra(self, ctx, cases, impl, model):
+        return dict(getattr(self, "stats", {}))
+
+
+SUITES = [Main(), Wire()]
